@@ -54,9 +54,9 @@ Proof. exact table_verdicts_agree. Qed.
 Print Assumptions C11_generated_verdicts_agree.
 
 (* keyvalue PutData / DeleteData (one badger transaction), labelmap CleaveLabel (cleaveIndex) and
-   ChangeLabelIndex (indexMu shard), and — since the repairs C11-2-fix and C11-3-fix — neuronjson
-   storeAndUpdate (d.updateMu) and datastore newVersion (m.versionMu) are covered in the current
-   source.  Removing or moving one of these Lock / Unlock calls, or moving a store access out of
+   ChangeLabelIndex (indexMu shard), and — since the repairs C11-2-fix, C11-3-fix, C11-4-fix —
+   datastore newVersion (m.versionMu), neuronjson storeAndUpdate (d.updateMu) and annotation
+   StoreElements / DeleteElement / MoveElement (d.mutateMu) are covered in the current source.  Removing or moving one of these Lock / Unlock calls, or moving a store access out of
    the critical section, changes Gen/Locks.v and this statement stops computing to true. *)
 Theorem C11_covered_sites : forallb named_site_covered expected_covered = true.
 Proof. exact expected_covered_hold. Qed.
